@@ -44,6 +44,8 @@ type alJSON struct {
 	Field, Path string
 	Omit        bool
 	Codec       string // num | str | hex | time
+	Wrap        []string // conversions applied (outermost first), e.g. Format, UTC
+	Layout      string   // time codec, write side: the layout literal
 }
 
 type alTypes struct {
@@ -910,7 +912,16 @@ func (j *alJSONCtx) writeLit(cl *ast.CompositeLit, stName, pathPrefix string, ro
 		if err != nil {
 			return nil, fmt.Errorf("%s.%s: %w", stName, key, err)
 		}
-		out = append(out, alJSON{f, pathPrefix + jp, omit, codec})
+		item := alJSON{Field: f, Path: pathPrefix + jp, Omit: omit, Codec: codec, Wrap: wr}
+		if codec == "time" {
+			ast.Inspect(kv.Value, func(n ast.Node) bool {
+				if bl, ok := n.(*ast.BasicLit); ok && bl.Kind == token.STRING {
+					item.Layout, _ = strconv.Unquote(bl.Value)
+				}
+				return true
+			})
+		}
+		out = append(out, item)
 	}
 	return out, nil
 }
@@ -956,7 +967,7 @@ func (j *alJSONCtx) readLit(cl *ast.CompositeLit, fieldPrefix, pathPrefix string
 		if sn == "jsonEntry" {
 			pp = ""
 		}
-		out = append(out, alJSON{f, pp + jp, false, codec})
+		out = append(out, alJSON{Field: f, Path: pp + jp, Codec: codec, Wrap: wr})
 	}
 	return out, nil
 }
@@ -1121,7 +1132,7 @@ func c27ExtractJSON(x *ExtractCtx, f *ast.File, fields map[string]int) (*alJSONF
 				if err != nil {
 					return nil, err
 				}
-				res.logW[2] = append(res.logW[2], alJSON{fl, "details." + jp, omit, codec})
+				res.logW[2] = append(res.logW[2], alJSON{Field: fl, Path: "details." + jp, Omit: omit, Codec: codec, Wrap: wr})
 			}
 		default:
 			return nil, fmt.Errorf("json Encode: unknown kind %s", x.Src(cc.List[0]))
@@ -1510,6 +1521,36 @@ func extractAuditLog(x *ExtractCtx) error {
 	fmt.Fprintf(L, "def jsonLogLegacyR : List (String × String × Bool × String) :=\n   %s\n", c27LeanJSON(jf.logR[1]))
 	fmt.Fprintf(L, "def jsonGroundingW : List (String × String × Bool × String) :=\n   %s\n", c27LeanJSON(jf.grW))
 	fmt.Fprintf(L, "def jsonGroundingR : List (String × String × Bool × String) :=\n   %s\n", c27LeanJSON(jf.grR))
+	// how the timestamp (a Go time.Time: an instant plus a Location) is written and read
+	chSrc, beSrc, bdSrc := x.Src(ch), x.Src(be), x.Src(bd)
+	if !strings.Contains(chSrc, "binary.Write(buf, binary.BigEndian, e.Timestamp.UnixNano())") {
+		return fmt.Errorf("CalculateHash no longer hashes e.Timestamp.UnixNano()")
+	}
+	if !strings.Contains(beSrc, "binary.Write(w, binary.BigEndian, e.Timestamp.UnixNano())") {
+		return fmt.Errorf("binary Encode no longer writes e.Timestamp.UnixNano()")
+	}
+	if !strings.Contains(bdSrc, "e.Timestamp = time.Unix(0, ts)") {
+		return fmt.Errorf("binary Decode no longer reads the timestamp with time.Unix(0, ts)")
+	}
+	var tw, tr *alJSON
+	for i := range jf.entryW {
+		if jf.entryW[i].Field == "Timestamp" {
+			tw = &jf.entryW[i]
+		}
+	}
+	for i := range jf.entryR {
+		if jf.entryR[i].Field == "Timestamp" {
+			tr = &jf.entryR[i]
+		}
+	}
+	if tw == nil || tr == nil || tw.Codec != "time" || tr.Codec != "time" {
+		return fmt.Errorf("json: the timestamp is not written/read with the time codec")
+	}
+	fmt.Fprintf(L, "/-- Timestamp codecs. Hash and binary use the instant (`UnixNano`, zone independent). JSON write: the\nconversions applied to `e.Timestamp` (outermost first) and the layout; JSON read: the parser. -/\n")
+	fmt.Fprintf(L, "def hashTime : String := \"UnixNano\"\ndef binTimeW : String := \"UnixNano\"\ndef binTimeR : String := \"Unix(0,ns)\"\n")
+	fmt.Fprintf(L, "def jsonTimeWrite : List String := %s\n", LeanStrList(tw.Wrap))
+	fmt.Fprintf(L, "def jsonTimeLayout : String := %s\n", LeanStr(tw.Layout))
+	fmt.Fprintf(L, "def jsonTimeRead : List String := %s\n", LeanStrList(tr.Wrap))
 	fmt.Fprintf(L, "def jsonLogDerivedR : List String := %s\n", LeanStrList(jf.logDerivedR[2]))
 	fmt.Fprintf(L, "def jsonLogLegacyDerivedR : List String := %s\n", LeanStrList(jf.logDerivedR[1]))
 	fmt.Fprintf(L, "\nend Pithos.Gen.AuditLog\n")
